@@ -34,6 +34,10 @@ Qed.
 Theorem C18_hello_stale_independent : forall E udp old1 old2 d, List.length old1 = 1500%nat -> List.length old2 = 1500%nat ->
   fst (hello_recv (ldqE E) (stqE E) udp old1 d) = fst (hello_recv (ldqE E) (stqE E) udp old2 d).
 Proof. exact hello_stale_independent. Qed.
+(* ... and so do the ACF-VSS listener's status and printed events *)
+Theorem C18_vss_stale_independent : forall E udp old1 old2 d, List.length old1 = 1500%nat -> List.length old2 = 1500%nat ->
+  fst (vss_recv (ldwE E) (ldqE E) (stqE E) udp old1 d) = fst (vss_recv (ldwE E) (ldqE E) (stqE E) udp old2 d).
+Proof. exact vss_stale_independent. Qed.
 Theorem C18_vss : forall E udp ds old, List.length old = 1500%nat ->
   Forall survives (fst (runs (drop_events (vss_recv (ldwE E) (ldqE E) (stqE E) udp)) old ds)) /\
   List.length (snd (runs (drop_events (vss_recv (ldwE E) (ldqE E) (stqE E) udp)) old ds)) = 1500%nat.
@@ -83,6 +87,7 @@ Print Assumptions C18_can_stale_independent.
 Print Assumptions C18_hello.
 Print Assumptions C18_hello_stale_independent.
 Print Assumptions C18_vss.
+Print Assumptions C18_vss_stale_independent.
 Print Assumptions C18_aaf.
 Print Assumptions C18_cvf.
 Print Assumptions C18_crf.
